@@ -18,7 +18,12 @@ func c05Key(t *rapid.T) string {
 	return pick(t, "key", "s1", "s1", "s2", "s2", "s3", "s4", "str", "missing", "dst")
 }
 
-func c05Member(t *rapid.T) string { return "m" + strconv.Itoa(rapid.IntRange(0, 7).Draw(t, "m")) }
+func c05Member(t *rapid.T) string {
+	if rapid.IntRange(0, 30).Draw(t, "emptyname") == 0 {
+		return "" // the empty string is a member like any other
+	}
+	return "m" + strconv.Itoa(rapid.IntRange(0, 7).Draw(t, "m"))
+}
 
 func c05Members(t *rapid.T, lo, hi int) []string {
 	n := rapid.IntRange(lo, hi).Draw(t, "n")
